@@ -89,7 +89,7 @@ class Engine:
         for b in (
             "len min max range enumerate zip list set tuple isinstance is_infinite abs sum any all "
             "forall exists implies iff old product sorted reversed dict int bool ite cover callable getattr "
-            "frozenset print map the fin is_fin"
+            "frozenset print map the fin is_fin defaultdict"
         ).split():
             self.globals[b] = Builtin(b)
         self.tenv.ensure_ext()
